@@ -159,11 +159,11 @@ def run(ctx):
     ctx.level = "model_checking"
     sc.frontend_model(ctx)
     # E1: the property predicates as invariants of the composite (spec/MC_Rapid.tla)
-    mcrapid.check(ctx, ['NoCrash', 'StreamOwnerIsReserver'])
+    mcrapid.check(ctx, ['NoCrash', 'StreamOwnerIsReserver', 'OkHasBody', 'NoGhostInvoke'], extra_configs=('two',))
     ctx.assumptions += sc.ASSUME
     sc.run_families(ctx, scenarios(ctx), "second-caller")
     sc.run_families(ctx, fe_scenarios(ctx), "frontend-second")
-    sc.run_families(ctx, forced.scenarios('c10', ('double-reset',)), "forced-schedule")
+    sc.run_families(ctx, forced.scenarios('c10', ('double-reset', 'late-release')), "forced-schedule")
     ctx.coverage["exhaustive"] = False
 
 
